@@ -3,6 +3,7 @@ package main
 import (
 	"fmt"
 	"go/token"
+	"sort"
 	"strings"
 
 	"golang.org/x/tools/go/ssa"
@@ -11,557 +12,265 @@ import (
 func init() {
 	register(&propDef{
 		id: "C42", run: runC42, minOblig: 13,
-		explanation: "Decides the decision skeleton of ssh/knownhosts: (revocation first) hostKeyDB.check consults the revoked set for the presented key before anything else and returns RevokedError for a hit; (acceptance) checkAddr returns nil only behind 'line matches' AND keyEq(line key, presented key), and appends to KeyError.Want exactly the lines that matched (append behind the match edge, before the key comparison); (pattern lists) hostPatterns.match, evaluated per iteration over (pattern matches, negated): a matching negated pattern rejects immediately, a matching positive pattern sets the result and continues scanning (later negations still count), a non-matching pattern changes nothing; hostPattern.match requires the wildcard match of the host AND port equality; (wildcards) wildcardMatch's control skeleton, evaluated over (len(pat), pat[0] in {*,?,other}, len(str), characters equal): empty pattern matches only the empty string, a trailing '*' matches anything including the empty string, '*' with more pattern and no input fails, other characters need input and equality or '?'; (certificates) IsHostAuthority requires the @cert-authority marker, key equality and a host match; IsRevoked looks up the certificate and its signing key; New wires check, IsHostAuthority and IsRevoked into a CertChecker; (lines) parseLine binds the declared key type to the parsed key (C38) and rejects unknown or doubled markers and missing fields; the non-empty pattern precedes pattern[0]. NOT decided: Normalize/bracket/port string handling, hashed-host HMAC values, ssh-keygen agreement.",
-		assumptions: []string{"bytes.Equal of marshalled keys is key equality"},
+		explanation: "Decides the decision skeleton of ssh/knownhosts by interpretation, independent of how the code is split into helpers or how receivers, parameters and locals are named. (wiring) New stores three functions of the host key database into the CertChecker (HostKeyFallback, IsHostAuthority, IsRevoked); those three functions, whatever their names, are the roots of the tables below. (host key callback) The HostKeyFallback function is interpreted on an abstract database — key revoked or not, address given or not, 0-2 lines, per line (patterns match the address, line key equals the presented key, @cert-authority marker), with key marshalling/equality, the line matcher and the revoked-set lookup as oracles, helpers interpreted in place: a revoked key yields a RevokedError whatever the lines say (revocation first); otherwise nil exactly when a matching line lists the presented key, else a KeyError whose Want holds exactly the matching lines in order. (pattern lists) hostPatterns.match interpreted for 0-2 patterns x (negated, host wildcard matches, port equal): a pattern applies only with host match AND equal port; an applying negated pattern rejects the line wherever it stands; otherwise the line matches iff some applying pattern is positive. (wildcards) the wildcard matcher that the pattern matcher consults is interpreted on every concrete pattern over {a,b,?,*} up to length 4 (without \"**\") against every string over {a,b} up to length 3 and must agree with OpenSSH's match_pattern (empty pattern matches only the empty string, a trailing '*' matches the empty string, '?' needs a character). (certificates) the IsHostAuthority function returns true iff ONE line has the @cert-authority marker, a key equal to the signing key and a host match (0-2 lines x 8 assignments); the IsRevoked function returns true iff the certificate or its signing key is in the revoked set. (lines) parseLine rejects a host field that starts with '@' (doubled or unknown marker; the test may be a byte comparison or strings.HasPrefix, in the function or a helper); the database's parseLine records @revoked keys in the revoked set and never as matchable lines, and sets the line's cert flag exactly from 'marker == @cert-authority'. NOT decided: Normalize/bracket/port string handling, which address is matched, hashed-host HMAC values, the key-type/field checks of parseLine (C38), patterns with adjacent asterisks, ssh-keygen agreement.",
+		assumptions: []string{"bytes.Equal of marshalled keys is key equality", "all keys may have the same Type()"},
 	})
-	tech("C42", "must-cross CFG rules, per-iteration finite-domain evaluation of the pattern-list and wildcard state machines")
+	tech("C42", "finite-domain interpretation (pathWalker) of the wired callback functions on an abstract database with oracle calls; concrete interpretation of the wildcard matcher against a reference matcher; CFG reachability for the line parser's markers")
 }
 
 func runC42(c *Ctx) {
 	const pk = "ssh/knownhosts"
-	c42PatternTable(c)
-	// ---- check: revocation first
-	if f := c.fn(pk, "(*hostKeyDB).check"); f != nil {
-		var lk *ssa.Lookup
-		allInstrs(f, func(in ssa.Instruction) {
-			if l, ok := in.(*ssa.Lookup); ok {
-				if _, fld, _, okf := fieldOf(l.X); okf && fld == "revoked" {
-					lk = l
-				}
-			}
-		})
-		ok := lk != nil
-		detail := "the revoked set is not consulted"
-		if ok {
-			// lookup key derives from remoteKey.Marshal()
-			keyOK := false
-			if cv, isC := stripConv(lk.Index).(*ssa.Call); isC && cv.Call.IsInvoke() && cv.Call.Method.Name() == "Marshal" && cv.Call.Value == ssa.Value(f.Params[3]) {
-				keyOK = true
-			}
-			_, notRev := edgesWhere(lk, isNil)
-			yes, _ := edgesWhere(lk, isNil)
-			_ = notRev
-			// checkAddr is reached only over the "not revoked" (nil) edge
-			ca := callsNamed(f, "(*ssh/knownhosts.hostKeyDB).checkAddr")
-			cut := edgeSet{}
-			cut.addAll(yes)
-			ok = keyOK && len(ca) == 1 && len(yes) > 0 && !pathFromEntry(ca[0], cut)
-			detail = "the address/key check can run for a revoked key, or the revoked lookup is not keyed by the presented key"
-			// and the non-nil edge returns a RevokedError
-			okErr := false
-			for _, r := range returnsOf(f) {
-				if mi, isM := retVal(r, 0).(*ssa.MakeInterface); isM && strings.Contains(mi.X.Type().String(), "RevokedError") {
-					okErr = true
-				}
-			}
-			ok = ok && okErr
-		}
-		c.check(ok, "C42.revoked-first", "(*hostKeyDB).check", f, "a revoked key yields RevokedError before any line is consulted", detail)
+	// ---- pattern lists and wildcards
+	globs := c42PatternTable(c)
+	var glob *ssa.Function
+	if len(globs) == 1 {
+		glob = globs[0]
+	} else {
+		glob = c.fn(pk, "wildcardMatch")
 	}
-	// ---- checkAddr
-	if f := c.fn(pk, "(*hostKeyDB).checkAddr"); f != nil {
-		acc := acceptReturns(f, 0)
-		var m, k []ssa.CallInstruction
-		m = callsNamed(f, "(*ssh/knownhosts.keyDBLine).match")
-		k = callsNamed(f, "ssh/knownhosts.keyEq")
-		h := (*ssa.BasicBlock)(nil)
-		if len(m) == 1 {
-			h = innermostLoopHeader(m[0].Block())
-		}
-		ok := len(m) == 1 && len(k) == 1 && h != nil
-		if ok {
-			back := backEdges(f)
-			for _, pass := range [][]edge{callSuccess(m, 0, isTrue), callSuccess(k, 0, isTrue)} {
-				cut := edgeSet{}
-				cut.addAll(pass)
-				for b := range back {
-					cut[b] = true
-				}
-				r := reach([]*ssa.BasicBlock{h}, cut)
-				for _, t := range acc {
-					if r[t.Block()] {
-						ok = false
-					}
-				}
-			}
-			// keyEq compares the line's key with the presented key
-			a := k[0].Common().Args
-			_, f0, _, ok0 := fieldOf(a[0])
-			ok = ok && ok0 && f0 == "Key" && a[1] == ssa.Value(f.Params[2])
-		}
-		c.check(ok, "C42.accept", "(*hostKeyDB).checkAddr", f, "nil only for a matching line that lists exactly the presented key", "a key can be accepted without a matching line listing that key")
-		// Want: appended behind the match edge and before the key test
-		var app ssa.CallInstruction
-		for _, ci := range calls(f, nameIs("builtin:append")) {
-			app = ci
-		}
-		okW := app != nil && len(m) == 1 && len(k) == 1
-		if okW {
-			yes := callSuccess(m, 0, isTrue)
-			cut := edgeSet{}
-			cut.addAll(yes)
-			for b := range backEdges(f) {
-				cut[b] = true
-			}
-			// appended only for matching lines …
-			okW = !reach([]*ssa.BasicBlock{h}, cut)[app.Block()]
-			// … and for every matching line that does not end the search: no
-			// path from the match edge to the next iteration avoids the append
-			var starts []*ssa.BasicBlock
-			for _, e := range yes {
-				starts = append(starts, e.to())
-			}
-			r := reachAvoiding(starts, nil, map[*ssa.BasicBlock]bool{app.Block(): true})
-			for b := range backEdges(f) {
-				if r[b.from] {
-					okW = false
-				}
-			}
-			for _, ret := range returnsOf(f) {
-				if r[ret.Block()] && errNilness(retVal(ret, 0), ret.Block(), 0) != definitelyNil && !isNilConst(retVal(ret, 0)) {
-					okW = false
-				}
-			}
-		}
-		c.check(okW, "C42.want-lines", "(*hostKeyDB).checkAddr", f, "KeyError.Want collects exactly the lines whose patterns match", "KeyError.Want does not list exactly the matching lines")
+	if glob != nil {
+		c42Wildcard(c, glob)
 	}
-	// ---- hostPatterns.match per-iteration semantics
-	// Superseded by c42PatternTable (decision table by interpretation), which
-	// decides the same clause without depending on how the function is split
-	// into helpers; the anchor-based form below raised an alarm on a mere
-	// inlining of hostPattern.match and is no longer run.
-	const oldPatternRules = false
-	if f := c.fnOpt(pk, "(hostPatterns).match"); f != nil && oldPatternRules {
-		var mc *ssa.Call
-		for _, ci := range callsNamed(f, "(*ssh/knownhosts.hostPattern).match") {
-			mc = ci.(*ssa.Call)
-		}
-		var neg []ssa.Value
-		allInstrs(f, func(in ssa.Instruction) {
-			if u, ok := in.(*ssa.UnOp); ok {
-				if _, fld, _, okf := fieldOf(u); okf && fld == "negate" {
-					neg = append(neg, u)
-				}
-			}
-			if fv, ok := in.(*ssa.Field); ok {
-				if _, fld, _, okf := fieldOf(fv); okf && fld == "negate" {
-					neg = append(neg, fv)
-				}
-			}
-		})
-		bad := ""
-		if mc == nil || len(neg) == 0 {
-			bad = "pattern match call or negate flag not found"
-		} else {
-			back := backEdges(f)
-			var matched *ssa.Phi
-			h := innermostLoopHeader(mc.Block())
-			if h != nil {
-				for _, in := range h.Instrs {
-					if p, ok := in.(*ssa.Phi); ok && p.Type().String() == "bool" {
-						matched = p
-					}
-				}
-			}
-			for _, tc := range []struct{ m, n int64 }{{1, 1}, {1, 0}, {0, 0}, {0, 1}} {
-				e := newEnv()
-				e.bind(mc, tc.m)
-				for _, v := range neg {
-					e.bind(v, tc.n)
-				}
-				if matched != nil {
-					e.bind(matched, 0)
-				}
-				cut := e.cuts(f)
-				r := reachAfter(mc, cut)
-				if r[mc.Block()] {
-					// the call block itself is the loop body: fine
-				}
-				retFalse, retOther, cont := false, false, false
-				for _, ret := range returnsOf(f) {
-					if !r[ret.Block()] {
-						continue
-					}
-					// only returns inside the loop body count (the final return after the loop is reached via loop exit)
-					if h != nil && !h.Dominates(ret.Block()) {
-						continue
-					}
-					viaLoopExit := false
-					// a return reached only by leaving the loop (header exit) is the final result, not a per-iteration exit
-					cut2 := edgeSet{}
-					for k := range cut {
-						cut2[k] = true
-					}
-					for b := range back {
-						cut2[b] = true
-					}
-					if !reachAfter(mc, cut2)[ret.Block()] {
-						viaLoopExit = true
-					}
-					if viaLoopExit {
-						continue
-					}
-					if v, isC := constBool(retVal(ret, 0)); isC && !v {
-						retFalse = true
-					} else {
-						retOther = true
-					}
-				}
-				var carried int64 = -1
-				for b := range back {
-					if r[b.from] && !cut[b] {
-						cont = true
-						if matched != nil {
-							for i, p := range matched.Block().Preds {
-								if p == b.from {
-									if v, ok := e.eval(matched.Edges[i]); ok {
-										carried = v
-									}
-								}
-							}
-						}
-					}
-				}
-				switch {
-				case tc.m == 1 && tc.n == 1:
-					if !retFalse || retOther || cont {
-						bad = "a matching negated pattern does not reject the whole list immediately"
-					}
-				case tc.m == 1 && tc.n == 0:
-					if retFalse || retOther || !cont || carried != 1 {
-						bad = "a matching positive pattern must record the match and keep scanning (a later negation still has to reject); it returns early or does not record"
-					}
-				default:
-					if retFalse || retOther || !cont || carried != 0 {
-						bad = "a non-matching pattern changes the outcome"
-					}
-				}
-			}
-			// final result is the recorded flag
-			okFinal := false
-			for _, ret := range returnsOf(f) {
-				if retVal(ret, 0) == ssa.Value(matched) {
-					okFinal = true
-				}
-			}
-			if !okFinal && bad == "" {
-				bad = "the list's result is not the recorded match flag"
-			}
-		}
-		c.check(bad == "", "C42.pattern-list", "(hostPatterns).match", f, "negation rejects wherever it appears; positives accumulate", bad)
+	// ---- the database functions wired into the CertChecker
+	s, why := c42FindSchema(c)
+	if s == nil {
+		c.fail("anchor", "host key database", nil, "the database record cannot be identified: "+why)
+		return
 	}
-	if f := c.fnOpt(pk, "(*hostPattern).match"); f != nil && oldPatternRules {
-		acc := valueReturns(f, 0)
-		wm := callsNamed(f, "ssh/knownhosts.wildcardMatch")
-		var portEq []edge
-		allInstrs(f, func(in ssa.Instruction) {
-			if bo, ok := in.(*ssa.BinOp); ok && (bo.Op == token.EQL || bo.Op == token.NEQ) {
-				_, fx, _, okx := fieldOf(bo.X)
-				_, fy, _, oky := fieldOf(bo.Y)
-				if okx && oky && fx == "port" && fy == "port" {
-					y, _ := boolEdges(bo, bo.Op == token.EQL)
-					portEq = append(portEq, y...)
-				}
-			}
-		})
-		// result is a phi of (false, port compare) or direct: accept when return value can be true
-		var tr []ssa.Instruction
-		for _, t := range acc {
-			tr = append(tr, t)
-		}
-		okH := len(wm) == 1
-		if okH {
-			yes := callSuccess(wm, 0, isTrue)
-			cut := edgeSet{}
-			cut.addAll(yes)
-			// a true result must come through the wildcard-true edge: the returned value is phi[false, portcmp]
-			for _, t := range tr {
-				v := retVal(t.(*ssa.Return), 0)
-				for _, l := range phiLeaves(v) {
-					if b, isC := constBool(l.val); isC && !b {
-						continue
-					}
-					if l.pred != nil && reach([]*ssa.BasicBlock{f.Blocks[0]}, cut)[l.pred] {
-						// the non-false leaf arrives without the wildcard match
-						okH = false
-					}
-					bo, isB := l.val.(*ssa.BinOp)
-					if !isB || bo.Op != token.EQL {
-						okH = false
-					} else {
-						_, fx, _, okx := fieldOf(bo.X)
-						_, fy, _, oky := fieldOf(bo.Y)
-						if !(okx && oky && fx == "port" && fy == "port") {
-							okH = false
-						}
-					}
-				}
-			}
-		}
-		_ = portEq
-		c.check(okH, "C42.host-pattern", "(*hostPattern).match", f, "true only for a wildcard host match AND equal ports", "a host pattern can match without both the host wildcard match and port equality")
-	}
-	c42Wildcard(c)
-	// ---- IsHostAuthority / IsRevoked / New
-	if f := c.fn(pk, "(*hostKeyDB).IsHostAuthority"); f != nil {
-		acc := retTargets(f, func(r *ssa.Return) bool {
-			b, ok := constBool(retVal(r, 0))
-			return !ok || b
-		})
-		var cert []edge
-		allInstrs(f, func(in ssa.Instruction) {
-			if u, ok := in.(*ssa.UnOp); ok {
-				if _, fld, _, okf := fieldOf(u); okf && fld == "cert" {
-					y, _ := boolEdges(u, true)
-					cert = append(cert, y...)
-				}
-			}
-			if fv, ok := in.(*ssa.Field); ok {
-				if _, fld, _, okf := fieldOf(fv); okf && fld == "cert" {
-					y, _ := boolEdges(fv, true)
-					cert = append(cert, y...)
-				}
-			}
-		})
-		c.mustCross("C42.authority", "IsHostAuthority marker", f, instrsOf(acc), cert, "the line carries @cert-authority")
-		c.mustCross("C42.authority", "IsHostAuthority key", f, instrsOf(acc), callSuccess(callsNamed(f, "ssh/knownhosts.keyEq"), 0, isTrue), "keyEq(line key, signing key)")
-		c.mustCross("C42.authority", "IsHostAuthority host", f, instrsOf(acc), callSuccess(callsNamed(f, "(*ssh/knownhosts.keyDBLine).match"), 0, isTrue), "the line's patterns match the address")
-	}
-	if f := c.fn(pk, "(*hostKeyDB).IsRevoked"); f != nil {
-		n := 0
-		what := map[string]bool{}
-		allInstrs(f, func(in ssa.Instruction) {
-			if l, ok := in.(*ssa.Lookup); ok {
-				if _, fld, _, okf := fieldOf(l.X); okf && fld == "revoked" {
-					n++
-					if cv, isC := stripConv(l.Index).(*ssa.Call); isC && cv.Call.IsInvoke() && cv.Call.Method.Name() == "Marshal" {
-						if _, f2, _, ok2 := fieldOf(cv.Call.Value); ok2 {
-							what[f2] = true
-						} else {
-							what["self"] = true
-						}
-					} else if cv, isC := stripConv(l.Index).(*ssa.Call); isC && strings.HasSuffix(calleeName(&cv.Call), ".Marshal") {
-						what["self"] = true
-					}
-				}
-			}
-		})
-		c.check(n == 2 && what["SignatureKey"] && what["self"], "C42.authority", "IsRevoked", f, "both the certificate and its signing key are looked up in the revoked set", fmt.Sprintf("revoked lookups: %d (%v); both the certificate and its signing key must be checked", n, what))
-	}
+	wired := map[string]*ssa.Function{}
 	if f := c.fn(pk, "New"); f != nil {
-		got := map[string]string{}
-		for _, g := range withClosures(f) {
-			allInstrs(g, func(in ssa.Instruction) {
-				if st, ok := in.(*ssa.Store); ok {
-					if t, fld, _, okf := fieldOf(st.Addr); okf && t == "CertChecker" {
-						got[fld] = funcValueName(st.Val)
-						if mc, isM := st.Val.(*ssa.MakeClosure); isM {
-							got[fld] = funcValueName(mc.Fn)
-						}
-					}
-				}
-			})
+		wired = c42Wired(c, f)
+		var desc []string
+		ok := true
+		for _, fld := range []string{"HostKeyFallback", "IsHostAuthority", "IsRevoked"} {
+			g := wired[fld]
+			if g == nil || g.Pkg != f.Pkg || c42Recv(s, g) == "" {
+				ok = false
+				delete(wired, fld)
+			}
+			if g != nil {
+				desc = append(desc, fld+"="+short(g.String()))
+			} else {
+				desc = append(desc, fld+"=<not set>")
+			}
 		}
-		ok := strings.Contains(got["IsHostAuthority"], "IsHostAuthority") && strings.Contains(got["IsRevoked"], "IsRevoked") && strings.Contains(got["HostKeyFallback"], "check")
-		c.check(ok, "C42.wiring", "New", f, "CertChecker uses the database's IsHostAuthority, IsRevoked and check", fmt.Sprintf("CertChecker wiring is %v", got))
+		sort.Strings(desc)
+		c.check(ok, "C42.wiring", "New", f, "CertChecker uses functions of the host key database for HostKeyFallback, IsHostAuthority and IsRevoked ("+strings.Join(desc, ", ")+"); their behaviour is decided by the tables", fmt.Sprintf("CertChecker wiring is %v: not all three callbacks are functions of the host key database", desc))
+	}
+	root := func(fld, fallback string) *ssa.Function {
+		if g := wired[fld]; g != nil {
+			c42Seen(c, pk, g)
+			return g
+		}
+		return c.fn(pk, fallback)
+	}
+	if glob != nil {
+		c42Seen(c, pk, glob)
+	}
+	if f := root("HostKeyFallback", "(*hostKeyDB).check"); f != nil {
+		c42CheckTable(c, s, f)
+	}
+	if f := root("IsHostAuthority", "(*hostKeyDB).IsHostAuthority"); f != nil {
+		c42AuthorityTable(c, s, f)
+	}
+	if f := root("IsRevoked", "(*hostKeyDB).IsRevoked"); f != nil {
+		c42RevokedTable(c, s, f)
 	}
 	// ---- parseLine markers
 	if f := c.fn(pk, "parseLine"); f != nil {
-		// pattern starting with '@' rejected
-		acc := acceptReturns(f, 3)
-		var at []edge
-		allInstrs(f, func(in ssa.Instruction) {
-			if bo, ok := in.(*ssa.BinOp); ok && (bo.Op == token.EQL || bo.Op == token.NEQ) {
-				if k, okk := constInt(bo.Y); okk && k == '@' {
-					_, no := boolEdges(bo, bo.Op == token.EQL)
-					at = append(at, no...)
-				}
-			}
-		})
-		// the '@' test is only evaluated for non-empty hosts; accept must not be reachable over the '@' == true edge
-		okAt := len(at) > 0
-		if okAt {
-			allInstrs(f, func(in ssa.Instruction) {
-				if bo, ok := in.(*ssa.BinOp); ok && (bo.Op == token.EQL || bo.Op == token.NEQ) {
-					if k, okk := constInt(bo.Y); okk && k == '@' {
-						e := newEnv()
-						if bo.Op == token.EQL {
-							e.bind(bo, 1)
-						} else {
-							e.bind(bo, 0)
-						}
-						cut := e.cuts(f)
-						r := reachAfter(bo, cut)
-						for _, t := range acc {
-							if r[t.Block()] {
-								okAt = false
-							}
-						}
-					}
-				}
-			})
-		}
-		c.check(okAt, "C42.markers", "parseLine unexpected marker", f, "a second or unknown @marker in the host position is rejected", "a line whose host field starts with '@' (doubled/unknown marker) is accepted")
+		c42UnexpectedMarker(c, f)
 	}
 	if f := c.fn(pk, "(*hostKeyDB).parseLine"); f != nil {
-		// @revoked lines go to the revoked set and never to lines
-		var rev *ssa.BinOp
-		allInstrs(f, func(in ssa.Instruction) {
-			if bo, ok := in.(*ssa.BinOp); ok && bo.Op == token.EQL {
-				if s, isC := constString(bo.Y); isC && s == "@revoked" {
-					rev = bo
-				}
-			}
-		})
-		ok := rev != nil
-		if ok {
-			e := newEnv()
-			e.bind(rev, 1)
-			cut := e.cuts(f)
-			r := reachAfter(rev, cut)
-			for _, st := range storesTo(f, "hostKeyDB", "lines") {
-				if r[st.Block()] {
-					ok = false
-				}
-			}
-			upd := false
-			allInstrs(f, func(in ssa.Instruction) {
-				if mu, isM := in.(*ssa.MapUpdate); isM && r[mu.Block()] {
-					upd = true
-				}
-			})
-			ok = ok && upd
-		}
-		c.check(ok, "C42.markers", "(*hostKeyDB).parseLine @revoked", f, "@revoked keys are recorded in the revoked set and never become matchable lines", "@revoked lines are not kept apart from matchable lines")
-		// cert flag set from the marker
-		okC := false
-		for _, st := range storesTo(f, "keyDBLine", "cert") {
-			if bo, isB := st.Val.(*ssa.BinOp); isB && bo.Op == token.EQL {
-				if s, isC := constString(bo.Y); isC && s == "@cert-authority" {
-					okC = true
-				}
-			}
-		}
-		c.check(okC, "C42.markers", "(*hostKeyDB).parseLine @cert-authority", f, "the cert flag is exactly 'marker == @cert-authority'", "the certificate-authority flag is not derived from the @cert-authority marker")
+		c42LineMarkers(c, s, f)
 	}
 }
 
-func c42Wildcard(c *Ctx) {
-	f := c.fn("ssh/knownhosts", "wildcardMatch")
-	if f == nil {
-		return
+// c42Seen records f and the helpers interpreted with it as analysed functions
+// (evidence: functions_analysed).
+func c42Seen(c *Ctx, pk string, f *ssa.Function) {
+	if c.funcsSeen == nil {
+		c.funcsSeen = map[string]bool{}
 	}
-	// the loop-carried pat/str values: phis in the loop header
-	var h *ssa.BasicBlock
-	for e := range backEdges(f) {
-		if h == nil || e.to().Dominates(h) {
-			h = e.to()
-		}
+	for _, g := range deepFuncs(f) {
+		c.funcsSeen[pk+"."+fnName(g)] = true
 	}
-	if h == nil {
-		c.fail("C42.wildcard", "wildcardMatch", f, "loop not found")
-		return
-	}
-	var phis []*ssa.Phi
-	for _, in := range h.Instrs {
-		if p, ok := in.(*ssa.Phi); ok && strings.HasPrefix(p.Type().String(), "[]") {
-			phis = append(phis, p)
-		}
-	}
-	if len(phis) != 2 {
-		c.fail("C42.wildcard", "wildcardMatch", f, fmt.Sprintf("expected two loop-carried slices (pattern, string), found %d", len(phis)))
-		return
-	}
-	// which is pat: the one whose initial value is parameter 0
-	pat, str := phis[0], phis[1]
-	for _, e := range phis[1].Edges {
-		if e == ssa.Value(f.Params[0]) {
-			pat, str = phis[1], phis[0]
-		}
-	}
-	back := backEdges(f)
-	type outcome struct{ retTrue, retFalse, cont, inner bool }
-	run := func(lp int64, p0 int64, ls int64, eq int64) outcome {
-		e := newEnv()
-		e.bindLen(f, pat, lp)
-		e.bindLen(f, str, ls)
-		e.bindIndexLoads(f, func(b ssa.Value) bool { return b == ssa.Value(pat) }, 0, p0)
-		// str[0]: equal to pat[0] or not
-		s0 := p0
-		if eq == 0 {
-			s0 = p0 + 1
-		}
-		if p0 == '?' || p0 == '*' {
-			s0 = 'x'
-		}
-		e.bindIndexLoads(f, func(b ssa.Value) bool { return b == ssa.Value(str) }, 0, s0)
-		cut := e.cuts(f)
-		for b := range back {
-			_ = b
-		}
-		r := reach([]*ssa.BasicBlock{h}, func() edgeSet {
-			cs := edgeSet{}
-			for k := range cut {
-				cs[k] = true
+}
+
+// c42AtTests: the boolean values in g that mean "the text starts with '@'":
+// x[0] == '@' / != '@' and strings/bytes.HasPrefix(x, "@"). For each the edges
+// on which the text DOES start with '@'.
+func c42AtTests(g *ssa.Function) (vals []ssa.Instruction, yes []edge) {
+	allInstrs(g, func(in ssa.Instruction) {
+		switch x := in.(type) {
+		case *ssa.BinOp:
+			if x.Op != token.EQL && x.Op != token.NEQ {
+				return
 			}
-			return cs
-		}())
-		var o outcome
-		for _, ret := range returnsOf(f) {
-			if !r[ret.Block()] {
-				continue
+			k, ok := constInt(x.Y)
+			if !ok {
+				k, ok = constInt(x.X)
 			}
-			v := retVal(ret, 0)
-			if b, isC := constBool(v); isC {
-				if b {
-					o.retTrue = true
-				} else {
-					o.retFalse = true
+			if ok && k == '@' {
+				y, _ := boolEdges(x, x.Op == token.EQL)
+				vals = append(vals, x)
+				yes = append(yes, y...)
+			}
+		case *ssa.Call:
+			n := short(calleeName(&x.Call))
+			if (n == "strings.HasPrefix" || n == "bytes.HasPrefix") && len(x.Call.Args) == 2 {
+				pre := stripConv(x.Call.Args[1])
+				if s, ok := constString(pre); ok && s == "@" {
+					y, _ := boolEdges(x, true)
+					vals = append(vals, x)
+					yes = append(yes, y...)
 				}
-			} else if n, ok := e.eval(v); ok {
-				if n != 0 {
-					o.retTrue = true
-				} else {
-					o.retFalse = true
+			}
+		}
+	})
+	return
+}
+
+// c42UnexpectedMarker: once the host field is seen to start with '@', no
+// accepting return of parseLine is reachable. The test may sit in parseLine or
+// in a helper that returns an error.
+func c42UnexpectedMarker(c *Ctx, f *ssa.Function) {
+	const rule, construct = "C42.markers", "parseLine unexpected marker"
+	errIdx := f.Signature.Results().Len() - 1
+	acc := acceptReturns(f, errIdx)
+	found, okAt := false, true
+	for _, g := range deepFuncs(f) {
+		_, yes := c42AtTests(g)
+		if len(yes) == 0 {
+			continue
+		}
+		found = true
+		var starts []*ssa.BasicBlock
+		for _, e := range yes {
+			starts = append(starts, e.to())
+		}
+		r := reach(starts, nil)
+		if g == f {
+			for _, t := range acc {
+				if r[t.Block()] {
+					okAt = false
 				}
-			} else {
-				o.retTrue, o.retFalse = true, true
+			}
+			continue
+		}
+		// helper: behind the '@' edge it reports an error, and parseLine does not
+		// accept behind the helper's error edge
+		gi := g.Signature.Results().Len() - 1
+		if gi < 0 {
+			okAt = false
+			continue
+		}
+		for _, ret := range returnsOf(g) {
+			if r[ret.Block()] && errNilness(retVal(ret, gi), ret.Block(), 0) != neverNil {
+				okAt = false
 			}
 		}
-		for b := range back {
-			if b.to() == h && r[b.from] && !cut[b] {
-				o.cont = true
+		cs := calls(f, func(n string) bool { return n == short(g.String()) })
+		fails := callFailure(cs, -1, isNil)
+		if len(cs) == 0 || len(fails) == 0 {
+			okAt = false
+			continue
+		}
+		var fs []*ssa.BasicBlock
+		for _, e := range fails {
+			fs = append(fs, e.to())
+		}
+		rf := reach(fs, nil)
+		for _, t := range acc {
+			if rf[t.Block()] {
+				okAt = false
 			}
 		}
-		for _, ci := range callsNamed(f, "ssh/knownhosts.wildcardMatch") {
-			if r[ci.Block()] {
-				o.inner = true
-			}
-		}
-		return o
 	}
-	bad := ""
-	chk := func(desc string, o outcome, wantTrue, wantFalse, wantCont bool) {
-		if bad != "" {
+	c.check(found && okAt && len(acc) > 0, rule, construct, f, "a second or unknown @marker in the host position is rejected", "a line whose host field starts with '@' (doubled/unknown marker) is accepted")
+}
+
+// c42MarkerTests: comparisons of a string with the constant marker text in g;
+// yes = the edges on which they are equal.
+func c42MarkerTests(g *ssa.Function, marker string) (yes []edge, eqVals []ssa.Value) {
+	allInstrs(g, func(in ssa.Instruction) {
+		bo, ok := in.(*ssa.BinOp)
+		if !ok || (bo.Op != token.EQL && bo.Op != token.NEQ) {
 			return
 		}
-		// the inner recursion makes both results possible when entered
-		if o.inner {
-			return
+		sx, okx := constString(bo.X)
+		sy, oky := constString(bo.Y)
+		if (okx && sx == marker) || (oky && sy == marker) {
+			y, _ := boolEdges(bo, bo.Op == token.EQL)
+			yes = append(yes, y...)
+			if bo.Op == token.EQL {
+				eqVals = append(eqVals, bo)
+			}
 		}
-		if o.retTrue != wantTrue || o.retFalse != wantFalse || o.cont != wantCont {
-			bad = fmt.Sprintf("%s: can return true=%v false=%v, continues=%v; OpenSSH match_pattern: true=%v false=%v continues=%v", desc, o.retTrue, o.retFalse, o.cont, wantTrue, wantFalse, wantCont)
+	})
+	return
+}
+
+func c42LineMarkers(c *Ctx, s *c42Schema, f *ssa.Function) {
+	dbName, lineName := s.db.Obj().Name(), s.line.Obj().Name()
+	// @revoked lines go to the revoked set and never to lines
+	yes, _ := c42MarkerTests(f, "@revoked")
+	ok := len(yes) > 0
+	if ok {
+		isLinesStore := func(in ssa.Instruction) bool {
+			st, isS := in.(*ssa.Store)
+			if !isS {
+				return false
+			}
+			t, fld, _, okf := fieldOf(st.Addr)
+			return okf && t == dbName && fld == s.lines
+		}
+		isRevokedUpdate := func(in ssa.Instruction) bool {
+			mu, isM := in.(*ssa.MapUpdate)
+			if !isM {
+				return false
+			}
+			t, fld, _, okf := fieldOf(mu.Map)
+			return okf && t == dbName && fld == s.revoked
+		}
+		for _, e := range yes {
+			if deepReachFrom(f, e.to(), nil, isLinesStore) != nil {
+				ok = false
+			}
+			if deepReachFrom(f, e.to(), nil, isRevokedUpdate) == nil {
+				ok = false
+			}
 		}
 	}
-	chk("empty pattern, empty string", run(0, 'a', 0, 1), true, false, false)
-	chk("empty pattern, non-empty string", run(0, 'a', 3, 1), false, true, false)
-	chk("pattern \"*\" (last character), empty string", run(1, '*', 0, 1), true, false, false)
-	chk("pattern \"*\" (last character), non-empty string", run(1, '*', 3, 1), true, false, false)
-	chk("pattern \"*…\" with more pattern, empty string", run(3, '*', 0, 1), false, true, false)
-	chk("literal pattern character, empty string", run(2, 'a', 0, 1), false, true, false)
-	chk("'?', non-empty string", run(2, '?', 2, 1), false, false, true)
-	chk("'?', empty string", run(2, '?', 0, 1), false, true, false)
-	chk("equal literal characters", run(2, 'a', 2, 1), false, false, true)
-	chk("different literal characters", run(2, 'a', 2, 0), false, true, false)
-	c.check(bad == "", "C42.wildcard", "wildcardMatch", f, "control skeleton equals OpenSSH's match_pattern on 10 cases (incl. trailing '*' against the empty string)", bad)
+	c.check(ok, "C42.markers", "(*hostKeyDB).parseLine @revoked", f, "@revoked keys are recorded in the revoked set and never become matchable lines", "@revoked lines are not kept apart from matchable lines")
+	// cert flag set from the marker: every store to the line's marker field is
+	// the comparison itself, or 'true' behind the comparison's true edge, or false
+	okC, good := true, 0
+	for _, g := range deepFuncs(f) {
+		certYes, eqVals := c42MarkerTests(g, "@cert-authority")
+		for _, st := range storesTo(g, lineName, s.cert) {
+			isEq := false
+			for _, v := range eqVals {
+				if st.Val == v {
+					isEq = true
+				}
+			}
+			b, isConst := constBool(st.Val)
+			switch {
+			case isEq:
+				good++
+			case isConst && !b:
+			case isConst && b:
+				cut := edgeSet{}
+				cut.addAll(certYes)
+				if len(certYes) == 0 || pathFromEntry(st, cut) {
+					okC = false
+				} else {
+					good++
+				}
+			default:
+				okC = false
+			}
+		}
+	}
+	c.check(okC && good > 0, "C42.markers", "(*hostKeyDB).parseLine @cert-authority", f, "the cert flag is exactly 'marker == @cert-authority'", "the certificate-authority flag is not derived from the @cert-authority marker")
 }
